@@ -10,6 +10,7 @@ let () =
     | "ranges" | "rangeord" | "rangeq" -> D_ranges.eval, D_ranges.oracles
     | "terms" | "bitset" -> D_terms.eval, one D_terms.oracle
     | "offline" -> D_offline.eval, one D_offline.oracle
+    | "heap" -> D_heap.eval, one D_heap.oracle
     | "serde" -> D_serde.eval, one D_serde.oracle
     | "solver" | "faults" -> D_solver.eval, D_solver.oracles
     | "report" | "collapse" -> D_report.eval, one D_report.oracle
